@@ -565,6 +565,31 @@ func genTree18(rng *Rng) *tree18 {
 		}
 		refs[p.from][p.via] = append(refs[p.from][p.via], rel)
 	}
+	if rng.Chance(14) {
+		// a DIAMOND ACROSS DEPTHS: one local root referenced from kustomizations at different directory
+		// depths, so the localized reference differs per referrer (name prefixes keep the build valid)
+		t.Files[targetDir+"/dia/base/kustomization.yaml"] = "resources:\n- b.yaml\n"
+		t.Files[targetDir+"/dia/base/b.yaml"] = cmDoc("dia-b")
+		var entries []string
+		if rng.Bool() {
+			t.Files[targetDir+"/dia/overlay/kustomization.yaml"] = "namePrefix: ov-\nresources:\n- ../base\n"
+			entries = []string{"dia/base", "dia/overlay"}
+		} else {
+			t.Files[targetDir+"/apps/web/kustomization.yaml"] = "namePrefix: web-\nresources:\n- ../../dia/base\n"
+			t.Files[targetDir+"/apps/team/api/kustomization.yaml"] = "namePrefix: api-\nresources:\n- ../../../dia/base\n"
+			entries = []string{"apps/web", "apps/team/api"}
+			if rng.Bool() {
+				entries = append(entries, "dia/base")
+			}
+		}
+		if rng.Bool() {
+			for i, j := 0, len(entries)-1; i < j; i, j = i+1, j-1 {
+				entries[i], entries[j] = entries[j], entries[i]
+			}
+		}
+		refs[0]["resources"] = append(refs[0]["resources"], entries...)
+		t.tag("order:diamond-across-depths")
+	}
 	if rng.Chance(8) {
 		// a nested root referenced before the root that encloses it
 		t.Files[targetDir+"/enc/kustomization.yaml"] = "resources:\n- e.yaml\n"
